@@ -3,7 +3,7 @@
    of threads, any interleaving, any victim choices).  [ov k] says whether the value the
    cached function returns for key k alone exceeds max_memory (a deterministic function
    returns the same value, hence the same size, for the same key). *)
-From CL Require Import ConcModel PfConc.
+From CL Require Import Base SeqModel Inv ConcModel PfConc PfRefine.
 
 Theorem C18_quiescent_consistent :
   forall ov limit pc f s, creach_ov ov limit pc f s -> quiescent s ->
@@ -28,3 +28,16 @@ Theorem C18_refuted_for_size_changing_values :
   forall f, exists s, creach (Some 1) PScored f s /\ quiescent s /\ length (c_store s) = 2%nat.
 Proof. exact conc_counterexample. Qed.
 Print Assumptions C18_refuted_for_size_changing_values.
+
+(* The tie between the two models: every history of the sequential model of the sync engines
+   (the model that the step-wise correspondence compares with the real engine) is a path of
+   the concurrent model, so the concurrent model's steps are not an independent invention:
+   what one thread does alone is exactly a sequence of its critical sections. *)
+Theorem C18_seq_run_is_conc_reachable :
+  forall c h f,
+    is_async c = false -> wf_cfg c = true ->
+    Forall (fun e => stores_f f (ev_op e)) h ->
+    creach (limit c) (class_of (pol c)) f (abs (fst (run c 0 init h))) /\
+    quiescent (abs (fst (run c 0 init h))).
+Proof. exact seq_run_is_conc_reachable. Qed.
+Print Assumptions C18_seq_run_is_conc_reachable.
